@@ -561,7 +561,10 @@ structure Peek (σ : Type) where
   front : Option Val
   rear : Option Val
 
-/-- `Peekable` used as an iterator (`iterator_next` / `iterator_next_back`) -/
+/-- `Peekable` used as an iterator (`iterator_next` / `iterator_next_back`). Over a forward-only
+iterator `next_back` returns `None` at once and leaves the state alone (since /repo commit 582d021;
+before, the wrapped iterator's default `next_back() == None` was taken for "exhausted" and the cached
+front value handed out from the back — finding F-C13-4). -/
 def peekableCo (c : Co) : Co where
   σ := Peek c.σ
   next s :=
@@ -573,13 +576,15 @@ def peekableCo (c : Co) : Co where
       | some v => ⟨some v, { s with inner := r.st }, r.ev⟩
       | none => ⟨s.rear, ⟨r.st, none, none⟩, r.ev⟩
   back s :=
-    match s.rear with
-    | some v => ⟨some v, { s with rear := none }, []⟩
-    | none =>
-      let r := c.back s.inner
-      match r.out with
-      | some v => ⟨some v, { s with inner := r.st }, r.ev⟩
-      | none => ⟨s.front, ⟨r.st, none, none⟩, r.ev⟩
+    if c.bidir then
+      match s.rear with
+      | some v => ⟨some v, { s with rear := none }, []⟩
+      | none =>
+        let r := c.back s.inner
+        match r.out with
+        | some v => ⟨some v, { s with inner := r.st }, r.ev⟩
+        | none => ⟨s.front, ⟨r.st, none, none⟩, r.ev⟩
+    else ⟨none, s, []⟩
   bidir := c.bidir
 
 /-- the script-visible operations of a `Peekable` object -/
@@ -598,7 +603,8 @@ def peekFront (c : Co) (s : Peek c.σ) : Res (Peek c.σ) :=
     | none => ⟨none, r.st, r.ev⟩
     | some v => ⟨some v, { r.st with front := some v }, r.ev⟩
 
-/-- `Peekable::peek_back`, symmetric -/
+/-- `Peekable::peek_back`, symmetric (over a forward-only iterator `next_back` gives `None`, so
+`peek_back` gives null and never caches anything) -/
 def peekRear (c : Co) (s : Peek c.σ) : Res (Peek c.σ) :=
   match s.rear with
   | some v => ⟨some v, s, []⟩
@@ -1201,19 +1207,28 @@ def specPeekOps : List PeekOp → List Val → List Val
   | .peek :: ops, xs => xs.head?.getD endMarker :: specPeekOps ops xs
   | .peekBack :: ops, xs => xs.getLast?.getD endMarker :: specPeekOps ops xs
 
+/-- `Peekable` operations on an ideal forward-only sequence: there is no back end, `next_back` and
+`peek_back` answer "end" and change nothing -/
+def specPeekOpsF : List PeekOp → List Val → List Val
+  | [], _ => []
+  | .next :: ops, xs => xs.head?.getD endMarker :: specPeekOpsF ops xs.tail
+  | .peek :: ops, xs => xs.head?.getD endMarker :: specPeekOpsF ops xs
+  | .back :: ops, xs | .peekBack :: ops, xs => endMarker :: specPeekOpsF ops xs
+
 /-- the ideal sequence after a sequence of calls -/
 def specAfter (bidir : Bool) : List Bool → List Val → List Val
   | [], xs => xs
   | true :: ds, xs => specAfter bidir ds xs.tail
   | false :: ds, xs => specAfter bidir ds (if bidir then xs.dropLast else xs)
 
-def specPeekAfter : List PeekOp → List Val → List Val
+def specPeekAfter (bidir : Bool) : List PeekOp → List Val → List Val
   | [], xs => xs
-  | .next :: ops, xs => specPeekAfter ops xs.tail
-  | .back :: ops, xs => specPeekAfter ops xs.dropLast
-  | _ :: ops, xs => specPeekAfter ops xs
+  | .next :: ops, xs => specPeekAfter bidir ops xs.tail
+  | .back :: ops, xs => specPeekAfter bidir ops (if bidir then xs.dropLast else xs)
+  | _ :: ops, xs => specPeekAfter bidir ops xs
 
-def peekFrontOnly (ops : List PeekOp) : Bool := ops.all (fun o => o == .next || o == .peek)
+def specPeek (bidir : Bool) (ops : List PeekOp) (xs : List Val) : List Val :=
+  if bidir then specPeekOps ops xs else specPeekOpsF ops xs
 
 /-- consumer applied to a plain list -/
 def specCons (bidir : Bool) (c : Cons) (xs : List Val) : Ans :=
@@ -1227,12 +1242,9 @@ def specCons (bidir : Bool) (c : Cons) (xs : List Val) : Ans :=
   | .peekCopy pre post =>
     let onC := (post.filter (·.1)).map (·.2)
     let onO := (post.filter (fun p => !p.1)).map (·.2)
-    if bidir || (peekFrontOnly pre && peekFrontOnly onC && peekFrontOnly onO) then
-      let rest := specPeekAfter pre xs
-      .ok (.tuple [.list (specPeekOps pre xs), .list (specPeekOps onC rest), .list (specPeekOps onO rest)])
-    else .error .unsupported
-  | .peekOps ops => if bidir || ops.all (fun o => o == .next || o == .peek) then .ok (.list (specPeekOps ops xs))
-                    else .error .unsupported
+    let rest := specPeekAfter bidir pre xs
+    .ok (.tuple [.list (specPeek bidir pre xs), .list (specPeek bidir onC rest), .list (specPeek bidir onO rest)])
+  | .peekOps ops => .ok (.list (specPeek bidir ops xs))
   | .calls dirs => .ok (.list (specCalls bidir dirs xs))
   | .advance n => .ok (.tuple [Val.int (n - xs.length : Nat), .list (xs.drop n)])
   | .unpack => .ok (.tuple ((xs.take 3) ++ List.replicate (3 - xs.length) Val.null))
